@@ -55,6 +55,7 @@
 //	out=<-|hex: what changed anywhere in the sandbox outside the image directory (after the load; after CleanUp: anywhere at all)>
 //	esc=<-|hex: symbolic links (or other non-file non-directory objects) found on disk inside the image directory that lead out of it>
 //	acc=<0|1: ChainLayers() returns one chain layer per history entry / archive and Size() is not negative>
+//	nfi=<0|1|-: artifact/image.NewFromImage of the same image failed> nfileft=<scalibr-container-* directories in TMPDIR after a failure>
 //	uerr=<0|1|-> uout=<-|hex> uesc=<-|hex> udots=<0|1: some relative link target of the image has a ".." component>
 package main
 
@@ -79,6 +80,7 @@ import (
 	"github.com/google/go-containerregistry/pkg/v1/empty"
 	"github.com/google/go-containerregistry/pkg/v1/mutate"
 	"github.com/google/go-containerregistry/pkg/v1/tarball"
+	scalibrimage "github.com/google/osv-scalibr/artifact/image"
 	"github.com/google/osv-scalibr/artifact/image/layerscanning/image"
 	"github.com/google/osv-scalibr/artifact/image/require"
 	"github.com/google/osv-scalibr/artifact/image/unpack"
@@ -688,8 +690,29 @@ func run(base string, id int, c lcase) string {
 				}
 			}
 		}
-		return fmt.Sprintf("err=%s left=%d img=%d partial=%d clean=%d names=%s out=%s esc=%s acc=%d uerr=%s uout=%s uesc=%s udots=%d misuse=%d", hx.B(lerr != nil), left, imgOK, partial,
-			len(after), leftNames, hexOr(changed), hexOr(esc), acc, uerr, uout, uesc, udots, misuse)
+		// ---- the same image through artifact/image.NewFromImage (what the CLI uses for remote images): it unpacks into a new
+		// TMPDIR/scalibr-container-* and returns a DirFS of it; there is no clean-up API (after a SUCCESS the directory is the caller's to
+		// find and remove: the harness does), after a FAILURE nothing may be left
+		nfi, nfileft := "-", 0
+		if c.kind != 'm' && c.kind != 'p' {
+			nb := snap(root, "", obs)
+			_, ne := scalibrimage.NewFromImage(img)
+			nfi = hx.B(ne != nil)
+			ents, _ := os.ReadDir(obs)
+			for _, e := range ents {
+				if strings.HasPrefix(e.Name(), "scalibr-container-") {
+					if ne != nil {
+						nfileft++
+					}
+					_ = os.RemoveAll(filepath.Join(obs, e.Name()))
+				}
+			}
+			if d := diff(nb, snap(root, "", obs)); len(d) > 0 && uout == "-" {
+				uout = hexOr(append([]string{"NewFromImage:"}, d...))
+			}
+		}
+		return fmt.Sprintf("err=%s left=%d img=%d partial=%d clean=%d names=%s out=%s esc=%s acc=%d uerr=%s uout=%s uesc=%s udots=%d misuse=%d nfi=%s nfileft=%d", hx.B(lerr != nil), left, imgOK, partial,
+			len(after), leftNames, hexOr(changed), hexOr(esc), acc, uerr, uout, uesc, udots, misuse, nfi, nfileft)
 	})
 }
 
